@@ -145,6 +145,50 @@ def _c03(tier, rng):
         yield ("random full environmental vectors", S.env3_random(rng, 2000000), False)
 
 
+def _c04(tier, rng):
+    yield ("all 729 base x (100 temporal + absent) vectors, temporal decoder", S.base2_all(levels=(1,)) + S.temporal2_all(), True)
+    yield ("all 729 base vectors at the base and environmental decoders", S.base2_all(levels=(0, 2)), True)
+    if tier == "thorough":
+        yield ("all base x temporal vectors, environmental decoder", S.temporal2_all(L=2), True)
+
+
+def _c05(tier, rng):
+    yield ("all 729 x 64 (base, CR, IR, AR) tuples, neutral CDP/TD, no temporal group", S.env2_adjusted_all(), True)
+    yield ("every CDP x TD pair on random carriers", S.env2_cdp_td_grid(rng, 60 if tier == "quick" else 2000), False)
+    yield ("random full vectors incl. absent groups", S.env2_random(rng, 100000 if tier == "quick" else 3000000), False)
+
+
+def _c06(tier, rng):
+    yield ("v3 base: all vectors x 3 decoders", S.base3_all(), True)
+    yield ("v2 base x temporal: all vectors", S.base2_all(levels=(1,)) + S.temporal2_all(), True)
+    yield ("v2 adjusted-base tuples (negative-equation exception)", S.env2_adjusted_all(), True)
+    n = 60000 if tier == "quick" else 1500000
+    yield ("v3 random environmental vectors", S.env3_random(rng, n), False)
+    yield ("v3 omitted/explicit X temporal vectors", S.temporal3_omitted(rng, n // 2), False)
+    yield ("v2 random full vectors", S.env2_random(rng, n), False)
+
+
+def _c13(tier, rng):
+    # all-X / all-ND neutrality and temporal <= base, on the finite domains
+    ops = []
+    from . import vec
+    for ver in vec.VERS3:
+        for bt in vec.all_base3_tokens():
+            b = vec.v3vec(ver, bt)
+            ops.append("S3 T " + core.hx(b))                       # temporal all omitted
+            ops.append("S3 E " + core.hx(b + "/E:X/RL:X/RC:X"))    # explicit X, environmental all omitted
+    yield ("v3: all base vectors with every optional metric Not Defined, T and E decoders", ops, True)
+    ops2 = []
+    for bt in vec.all_base2_tokens():
+        b = "/".join(bt)
+        ops2.append("S2 T " + core.hx(b + "/E:ND/RL:ND/RC:ND"))
+        for cdp in vec.V2E[0][2]:
+            ops2.append("S2 E " + core.hx(b + "/CDP:%s/TD:N/CR:%s/IR:%s/AR:%s" % (cdp, rng.choice(vec.V2E[2][2]), rng.choice(vec.V2E[3][2]), rng.choice(vec.V2E[4][2]))))
+    yield ("v2: all base vectors with ND temporal group; TD:N with every CDP", ops2, True)
+    yield ("v3 temporal <= base on a quarter of all base x temporal vectors", [o for i, o in enumerate(S.temporal3_all(1)) if (i + rng.below(4)) % 4 == 0] if tier == "quick" else S.temporal3_all(1), tier != "quick")
+    yield ("v2 temporal <= base on all base x temporal vectors", S.temporal2_all(), True)
+
+
 REGISTRY = {}
 
 
@@ -175,3 +219,41 @@ _reg(DecodeProp(
     _c03,
     "exhaustive enumeration of the effective-metric domain (every Modified metric explicit) with temporal X; all pairs "
     "(Modified value incl. X, base value) in seeded random contexts; seeded random full vectors; distinct by string"))
+
+_reg(DecodeProp(
+    "C04", ["CvssVerif.Props.C04"],
+    ["CvssVerif.Props.C04.base2_code_semantics", "CvssVerif.Props.C04.base2_partial", "CvssVerif.Props.C04.base2_known_violate",
+     "CvssVerif.Props.C04.base2_violated", "CvssVerif.Props.C04.temporal2_grid", "CvssVerif.Props.C04.temporal2_eq"],
+    _c04,
+    "exhaustive enumeration of the 729 base vectors x (100 temporal combinations + group absent) at the temporal decoder, and of the "
+    "base vectors at the other decoders; distinct by (decoder, string)",
+    assumptions=["the full statement is false of the unchanged code on the 22 base vectors of known finding F1 (known_findings.json); "
+                 "the theorem claimed for the base clause is base2_partial + base2_code_semantics + base2_known_violate"]))
+
+_reg(DecodeProp(
+    "C05", ["CvssVerif.Props.C05"],
+    ["CvssVerif.Props.C05.env2_partial", "CvssVerif.Props.C05.env2_known_violate", "CvssVerif.Props.C05.env2_violated",
+     "CvssVerif.Props.C05.env2_absent", "CvssVerif.Props.C05.env2_grid"],
+    _c05,
+    "exhaustive enumeration of the 46,656 (base, CR, IR, AR) tuples with neutral CDP/TD; every (CDP, TD) pair on seeded random carriers; "
+    "seeded random full vectors with and without groups; distinct by string",
+    assumptions=["the full statement is false of the unchanged code on the 1,194 tuples of known finding F2; a failing vector is accepted as "
+                 "known only if its tuple is listed with the same adjusted base score and the rest of the chain follows the specification"]))
+
+_reg(DecodeProp(
+    "C06", ["CvssVerif.Props.C06"],
+    ["CvssVerif.Props.C06.tenth_nearest", "CvssVerif.Props.C06.tenth_prints_one_decimal", "CvssVerif.Props.C06.sev3_band",
+     "CvssVerif.Props.C06.sev2_band", "CvssVerif.Props.C06.v3_base", "CvssVerif.Props.C06.v3_temporal", "CvssVerif.Props.C06.v3_environmental",
+     "CvssVerif.Props.C06.v2_base", "CvssVerif.Props.C06.v2_temporal", "CvssVerif.Props.C06.v2_environmental"],
+    _c06,
+    "every score of the exhaustive base domains (v3 x 3 decoders, v2 base x temporal, v2 adjusted-base tuples) plus seeded random "
+    "environmental vectors of both versions: grid membership, range, severity = band of the reported score"))
+
+_reg(DecodeProp(
+    "C13", ["CvssVerif.Props.C13"],
+    ["CvssVerif.Props.C13.v3_temporal_allX", "CvssVerif.Props.C13.v3_temporal_le_base", "CvssVerif.Props.C13.v3_env_allX",
+     "CvssVerif.Props.C13.v3_env_allX_exception", "CvssVerif.Props.C13.v3_env_allX_model", "CvssVerif.Props.C13.v2_temporal",
+     "CvssVerif.Props.C13.v2_env_TDN"],
+    _c13,
+    "all base vectors of both versions with every optional metric Not Defined (omitted and explicit), TD:N with every CDP, and "
+    "temporal <= base on the base x temporal products"))
